@@ -101,7 +101,7 @@ pub fn worker_main(args: &[String]) -> i32 {
     let mut found: BTreeMap<String, u32> = BTreeMap::new();
     use std::io::Write;
     let out = std::io::stdout();
-    let mut out = out.lock();
+    let mut out = out; // not locked: simulated callers may print to stdout themselves (`QRCode::print`)
     for j in 0..count {
         if j % 32 == 0 && t0.elapsed().as_secs() >= max_secs {
             ws.stopped_by_time_cap = true;
